@@ -8,6 +8,7 @@ set -e
 export CARGO_NET_OFFLINE=true
 W=/verif/.build/cov; rm -rf $W; mkdir -p $W/prof /verif/coverage
 T=$(ls -d ~/.rustup/toolchains/nightly-x86_64-unknown-linux-gnu/lib/rustlib/*/bin)
+export LLVM_PROFILE_FILE=$W/prof/build-%p.profraw   # proc-macros and build scripts are instrumented too: keep their output out of /repo
 (cd /verif/harness && RUSTFLAGS="-C instrument-coverage" cargo +nightly build --offline --target-dir $W/target 2>&1 | tail -1)
 D=$W/target/debug/drive
 export LLVM_PROFILE_FILE=$W/prof/d-%p.profraw
@@ -19,6 +20,7 @@ for k in env menv; do for prof in plain toggle overfull malformed unusual npy; d
 for prof in plain reload malformed; do $D market-gen --profile $prof --seed $S --hists 100 --ops 80 > /dev/null 2>&1; done
 $D agent-exact --seed $S --n 60 >/dev/null 2>&1; $D agent-audit --seed $S --n 60 > /dev/null 2>&1; $D momentum --seed $S --n 40 >/dev/null 2>&1
 $D sim-gen --seed $S --n 20 --mix 1 > /dev/null 2>&1; $D price-helpers --seed $S --n 500 >/dev/null 2>&1; $D shapes --seed $S > /dev/null 2>&1; $D trunc --seed $S --n 2 > /dev/null 2>&1
+rm -f $W/prof/build-*.profraw
 $T/llvm-profdata merge -sparse $W/prof/*.profraw -o $W/all.profdata
 OUT=/verif/coverage/correspondence_coverage.txt
 {
